@@ -654,7 +654,7 @@ class Anchor(Expression):
         if self.name is not None:
             return "<anchor {}>".format(self.name)
         res = "<anchor {} {}".format(self.x, self.y)
-        if self.contourpoint:
+        if self.contourpoint is not None:
             res += " contourpoint {}".format(self.contourpoint)
         if self.xDeviceTable or self.yDeviceTable:
             res += " "
@@ -674,7 +674,7 @@ class AnchorDefinition(Statement):
 
     def asFea(self, indent=""):
         res = "anchorDef {} {}".format(self.x, self.y)
-        if self.contourpoint:
+        if self.contourpoint is not None:
             res += " contourpoint {}".format(self.contourpoint)
         res += " {};".format(self.name)
         return res
